@@ -55,7 +55,7 @@ def jsonable(o):
 class Res:
     """Aggregated result of one case (or block of executions)."""
 
-    __slots__ = ("evals", "states", "trans", "traces", "outcomes", "nontrivial", "viol", "samples", "extra")
+    __slots__ = ("evals", "states", "trans", "traces", "outcomes", "nontrivial", "viol", "vcount", "samples", "extra")
 
     def __init__(self):
         self.evals = 0
@@ -65,6 +65,7 @@ class Res:
         self.outcomes = set()
         self.nontrivial = set()
         self.viol = []
+        self.vcount = {}
         self.samples = []
         self.extra = {}
 
@@ -75,10 +76,10 @@ class Res:
             self.nontrivial.add(h)
 
     def violate(self, key, msg, case, **detail):
-        if len(self.viol) < 200:
+        """Record a violation. Every distinct key keeps up to 5 replayable cases; all are counted."""
+        self.vcount[key] = self.vcount.get(key, 0) + 1
+        if sum(1 for v in self.viol if v["key"] == key) < 5:
             self.viol.append({"key": key, "msg": msg, "case": jsonable(case), "detail": jsonable(detail)})
-        else:
-            self.extra["violations_dropped"] = self.extra.get("violations_dropped", 0) + 1
 
     def bump(self, k, n=1):
         self.extra[k] = self.extra.get(k, 0) + n
@@ -94,8 +95,15 @@ class Res:
         self.traces += o.traces
         self.outcomes |= o.outcomes
         self.nontrivial |= o.nontrivial
-        room = 2000 - len(self.viol)
-        self.viol.extend(o.viol[:room])
+        have = {}
+        for v in self.viol:
+            have[v["key"]] = have.get(v["key"], 0) + 1
+        for v in o.viol:
+            if have.get(v["key"], 0) < 5:
+                self.viol.append(v)
+                have[v["key"]] = have.get(v["key"], 0) + 1
+        for k, c in o.vcount.items():
+            self.vcount[k] = self.vcount.get(k, 0) + c
         for s in o.samples:
             if len(self.samples) < 8:
                 self.samples.append(s)
@@ -196,11 +204,12 @@ class Ctx:
         for key in sorted(by_key):
             vs = by_key[key]
             f = findings.match(known, key)
+            nk = res.vcount.get(key, len(vs))
             if f is not None:
-                n_known += len(vs)
+                n_known += nk
                 if f["match"] not in printed:
                     printed.add(f["match"])
-                    lines.append(f"KNOWN-FINDING: property={self.pid} {f['what']} [key={f['match']}, {len(vs)} case(s) this run]")
+                    lines.append(f"KNOWN-FINDING: property={self.pid} {f['what']} [key pattern {f['match']}]")
                 continue
             # unlisted: replay before reporting
             v = vs[0]
@@ -211,9 +220,9 @@ class Ctx:
                 print(v["msg"])
                 self._write_evidence(0, 0, harness_error=True)
                 return 2
-            n_unlisted += len(vs)
+            n_unlisted += nk
             lines.append(f"VIOLATION property={self.pid} replay={path}")
-            lines.append(f"  key={key} cases={len(vs)} :: {v['msg'][:400]}")
+            lines.append(f"  key={key} cases={nk} :: {v['msg'][:400]}")
         for ln in lines:
             print(ln)
         self._write_evidence(n_unlisted, n_known)
